@@ -32,8 +32,8 @@ var ctxType = reflect.TypeOf((*sdk.Context)(nil)).Elem()
 var u64Type = reflect.TypeOf(uint64(0))
 var errType = reflect.TypeOf((*error)(nil)).Elem()
 
-const idGrid1 = 12 // one-argument getters: ids 0..12
-var idGrid2 = [2]uint64{4, 10}
+const idGrid1 = 12             // one-argument getters: ids 0..12
+var idGrid2 = [2]uint64{8, 10} // (position id, app) and (app, asset) shaped getters
 
 func digestJSON(v interface{}) (string, []byte) {
 	b, err := json.Marshal(v)
